@@ -178,14 +178,12 @@ def linkStep (kind : Kind) (hx hy hw hh : Rat) (link : Option (String × String)
     | none => acc
   else acc
 
-/-- `if has_bookmark: if matrix: pos_x, pos_y = matrix.transform_point(pos_x, pos_y)`:
-the *variables* pos_x, pos_y are overwritten, and reused by the anchor branch. -/
-def posAfterBookmark (hb : Bool) (m : Option Matrix) (hx hy : Rat) : Rat × Rat :=
-  if hb then
-    match m with
-    | some mm => mm.transformPoint hx hy
-    | none => (hx, hy)
-  else (hx, hy)
+/-- `bookmark_x, bookmark_y = pos_x, pos_y; if matrix: bookmark_x, bookmark_y = matrix.transform_point(pos_x, pos_y)`
+(fresh variables: `pos_x, pos_y` stay the hit-area corner for the anchor branch). -/
+def bookmarkPos (m : Option Matrix) (hx hy : Rat) : Rat × Rat :=
+  match m with
+  | some mm => mm.transformPoint hx hy
+  | none => (hx, hy)
 
 /-- `bookmarks.append((bookmark_level, bookmark_label, (pos_x, pos_y), state))`. -/
 def bookmarkStep (label : String) (level : Option Int) (state : String) (pos : Rat × Rat) (acc : Acc) : Acc :=
@@ -214,9 +212,8 @@ def anchorStep (anchor : Option String) (m : Option Matrix) (pos : Rat × Rat) (
 def visit (kind : Kind) (hx hy hw hh : Rat) (label : String) (level : Option Int) (state : String)
     (link : Option (String × String)) (isAttachment : Bool) (anchor : Option String)
     (m : Option Matrix) (acc : Acc) : Acc :=
-  let pos := posAfterBookmark (hasBookmark label level) m hx hy
-  anchorStep anchor m pos hw hh
-    (bookmarkStep label level state pos (linkStep kind hx hy hw hh link isAttachment m acc))
+  anchorStep anchor m (hx, hy) hw hh
+    (bookmarkStep label level state (bookmarkPos m hx hy) (linkStep kind hx hy hw hh link isAttachment m acc))
 
 mutual
 /-- `gather_anchors(box, anchors, links, bookmarks, forms, parent_matrix)`. -/
